@@ -1,5 +1,5 @@
-(* Lgtp — GTPv1-U header codec (layers/gtp.go): contributions to C19, C05, C06 (partial), C07, C01. *)
-From GP Require Import Base ListX Codec MiscLib LgtpModel.
+(* Lgtp — GTPv1-U header codec (layers/gtp.go): contributions to C19, C05, C06, C07, C01. *)
+From GP Require Import Base ListX Codec MiscLib LgtpModel LgtpRt.
 From Coq Require Import Lia ZifyBool ZifyNat.
 Open Scope Z_scope.
 Ltac Zify.zify_post_hook ::= Z.div_mod_to_equations.
@@ -80,13 +80,6 @@ Proof. eexists. split; [vm_compute; reflexivity|]. split; [vm_compute; discrimin
 Print Assumptions C06_gtp_orig_refuted.
 
 (* ---------------------------------------------------------------- serializer *)
-Lemma gtp_region_ok n junk vs : zlen vs = n -> gtp_region n junk vs = Ok vs.
-Proof.
-  intros H. unfold gtp_region. pose proof (zlen_nonneg vs). pose proof (ml_tile_init n junk ltac:(lia)) as T.
-  destruct (ml_tile_wrc _ _ vs _ 0 T eq_refl ltac:(change (zlen []) with 0; lia)) as [b [E T']].
-  rewrite E. apply ml_tile_done in T'; [|cbn [app]; exact H]. subst b. reflexivity.
-Qed.
-
 Lemma gtp_exts_junk_free junk1 junk2 : forall l, gtp_exts_bytes junk1 l = gtp_exts_bytes junk2 l /\ is_panic (gtp_exts_bytes junk1 l) = false.
 Proof.
   induction l as [|e t [IH1 IH2]]; [split; reflexivity|]. cbn [gtp_exts_bytes]. rewrite <- IH1.
@@ -116,16 +109,18 @@ Print Assumptions C07_gtp_no_panic.
 Theorem C01_gtp_render_total : forall orig old data, gtp_render_panics (fst (fst (gtp_decode_gen orig old data))) = false.
 Proof. reflexivity. Qed.
 
-(* C06 positive statement: stated, not proved (partial) — covered by the correspondence runs and the C06 oracle *)
-Definition gtp_wf (l : gtp) : Prop :=
-  0 <= g_version l < 8 /\ g_ptype l = 1 /\ g_reserved l = 0 /\ 0 <= g_mtype l < 256 /\ 0 <= g_teid l < 4294967296 /\
-  0 <= g_seq l < 65536 /\ 0 <= g_npdu l < 256 /\ (g_sflag l = false -> g_seq l = 0) /\ (g_nflag l = false -> g_npdu l = 0) /\
-  (g_exts l <> [] -> g_eflag l = true) /\
-  Forall (fun e => 1 <= gx_type e < 256 /\ zlen (gx_content e) mod 4 = 2 /\ zlen (gx_content e) <= 1018 /\ bytes_ok (gx_content e)) (g_exts l).
-Definition C06_gtp_roundtrip_statement : Prop := forall l payload csum junk bytes l' old,
-  gtp_wf l -> bytes_ok payload -> zlen bytes < 65536 + 8 -> gtp_serialize l payload true csum junk = (Ok bytes, l') ->
-  exists c, gtp_decode_into old bytes = (mkGtp c payload (g_version l) 1 0 (g_eflag l) (g_sflag l) (g_nflag l) (g_mtype l) (g_mlen l') (g_teid l)
-                                               (g_seq l) (g_npdu l) (g_exts l), Ok tt, false) /\ c ++ payload = bytes.
+(* C06 (repaired decoder, FixLengths): version < 8, protocol type 1, reserved 0 (what SerializeTo writes), octet message type,
+   32-bit TEID, sequence / N-PDU numbers only with their flags, extension headers of non-zero octet type with content of
+   4k+2 <= 1018 octets (and then the E flag), message below 2^16 octets: decoding the written bytes into any object gives the
+   header fields, MessageLength as fixed, the optional fields, the same extension headers and the payload; no error. *)
+Theorem C06_gtp_roundtrip : forall l payload csum junk bytes l' old,
+  gtp_wf l -> 4 + zlen (fst (gx_bytes (g_exts l))) + zlen payload < 65536 ->
+  gtp_serialize l payload true csum junk = (Ok bytes, l') ->
+  exists c, gtp_decode_into old bytes =
+    (mkGtp c payload (g_version l) 1 0 (g_eflag l) (g_sflag l) (g_nflag l) (g_mtype l) (g_mlen l') (g_teid l) (g_seq l) (g_npdu l) (g_exts l),
+     Ok tt, false) /\ c ++ payload = bytes.
+Proof. exact gtp_roundtrip. Qed.
+Print Assumptions C06_gtp_roundtrip.
 
 Example Lgtp_nonvacuous :
   let l := mkGtp [] [] 1 1 0 true true false 255 0 1 7 0 [mkGx 133 [1;2]] in
@@ -133,6 +128,6 @@ Example Lgtp_nonvacuous :
     gtp_decode_into gtp_fresh bytes = (mkGtp [54;255;0;9;0;0;0;1;0;7;0;133;1;1;2;0] [69] 1 1 0 true true false 255 9 1 7 0 [mkGx 133 [1;2]], Ok tt, false).
 Proof.
   cbv zeta. split.
-  - unfold gtp_wf. cbn. repeat split; try lia; try discriminate. constructor; [|constructor]. cbn. repeat split; try lia. repeat constructor; discriminate.
+  - unfold gtp_wf. cbn. repeat split; try lia; try discriminate. constructor; [|constructor]. unfold gx_wf. cbn. repeat split; try lia.
   - eexists. eexists. split; [vm_compute; reflexivity|]. split; vm_compute; reflexivity.
 Qed.
